@@ -125,6 +125,7 @@ def path_history(rec, rng, text, full_ob, present, ppairs):
     import tempfile
 
     d = tempfile.mkdtemp(prefix="vmon-c13-")
+    harness.add_siblings(d)
     try:
         path = pathlib.Path(d) / "chart.chart"
         path.write_bytes(text.encode("utf-8"))
